@@ -130,7 +130,7 @@ func loadProgram(repo, overlayDir string, patterns []string) (*engine, error) {
 		"encoding/hex": true, "math/bits": true, "internal/itoa": true, "internal/stringslite": true, "cmp": true,
 		"github.com/patrickmn/go-cache": true, "path": true, "path/filepath": false, "encoding/base64": true,
 		"internal/byteorder": true, "iter": true, "github.com/golang/groupcache/lru": true, "context": false,
-		"github.com/syndtr/goleveldb/leveldb/comparer": true, "github.com/syndtr/goleveldb/leveldb/util": true,
+		"time": true, "github.com/syndtr/goleveldb/leveldb/comparer": true, "github.com/syndtr/goleveldb/leveldb/util": true,
 	}
 	e.models = map[string]modelFn{}
 	e.skipInit = map[string]bool{"errors": true, "strconv": false, "unicode": true}
